@@ -6,6 +6,7 @@ use std::collections::{BTreeMap, BTreeSet};
 use std::io::{BufRead, Write};
 
 pub mod lin;
+pub mod proc;
 
 // ---------------------------------------------------------------------------------------
 // Address stability: the simulator identifies memory locations by address. If the heap handed a freed
